@@ -306,10 +306,17 @@ def _run(ctx, base):
                         f.write({"other-line-ends": other, "identical": want, "garbage": b"MAP\n  NAME \"old\"\nEND\n"}[pre])
                 case["existing_output"] = pre
             legacy = j % 2 == 0
+            # (the API child reads a copy made BEFORE the CLI runs: with "in-place" the CLI rewrites the input file itself, and a
+            # rewritten file need not load - a value holding the chosen output quote is outside what dumps guarantees)
+            inp_copy = os.path.join(wd, f"in{j}_copy.map")
+            if legacy:
+                with open(inp, "rb") as fsrc, open(inp_copy, "wb") as fdst:
+                    fdst.write(fsrc.read())
             p = cli(args, wd, legacy_locale=legacy)
             if legacy:
                 res.count("cli_runs_with_non_utf8_default_encoding")
                 case["default_encoding"] = "ascii (PYTHONUTF8=0, LC_ALL=C)"
+                inp = inp_copy
                 pc, outs = api_child(inp, wd, f"child{j}")
                 res.count("api_child_runs_with_non_utf8_default_encoding")
                 if pc.returncode != 0:
